@@ -4,7 +4,9 @@ import json, os
 ROOT = os.path.dirname(os.path.dirname(os.path.abspath(__file__)))
 TECH = "bounded symbolic execution of the real dreye functions on z3-backed numpy object arrays; each clause decided by an SMT (z3) unsat query; sat models replayed on the unpatched code"
 NOTE_COMMON = ("Reals, not floats. Shapes are bounded as stated in the evidence file (contents are fully symbolic). Compiled components are replaced by the contract "
-               "stubs listed in DESIGN.md section 3 and in the evidence; a sat model is reported only after it reproduces on the unpatched code; unknown => exit 2.")
+               "stubs listed in DESIGN.md section 3 and in the evidence; a sat model is reported only after it reproduces on the unpatched code; unknown => exit 2. Every case also carries the generic clause that the arrays handed in by "
+               "the caller are not modified. Cases named 'integer-typed', 'numpy scalar' or 'after an earlier ...' are decided by the run of the real code on sampled inputs "
+               "(typing and byte-keyed caches are invisible to real arithmetic; see DESIGN.md section 7).")
 CHECKS = {
  "C07": ("real lsq_linear(model='poisson') and lsq_linear_excitation (and estimator.fit dispatch) on symbolic systems through the cvxpy shim: per row bounds, prediction identity, global "
          "optimality of the documented objective (weighted Poisson NLL with ln uninterpreted; largest excitation difference via the proved rational form), feasibility, and the "
